@@ -57,6 +57,10 @@ Inductive mbody :=
 | MBRaw (cap : N) (frames : list str)
 | MBMultipart (ct : hdr).
 
+Inductive fsrc :=
+| FPath (rawseg : str)
+| FQuery (q : option str).
+
 Inductive ccase :=
 | CPath (sp : spec) (ws : list (str * wseg)) (intended : option (list fval)) (rq : rinfo) (o : obs)
 | CQuery (sp : spec) (q : option str) (intended : option (list fval)) (rq : rinfo) (o : obs)
@@ -78,6 +82,9 @@ Inductive ccase :=
      once (malformed stream only): [extract3] over the stages present *)
 | CMulti (path : option (spec * list (str * wseg))) (query : option (spec * option str))
          (body : mbody) (rq : rinfo) (o : obs)
+  (* a struct { v: f32 } / { v: f64 } as path or query parameter: [intended] and
+     the echoed value are IEEE bit patterns; the handler echoes [to_bits()] *)
+| CFloat (double : bool) (src : fsrc) (intended : option N) (rq : rinfo) (o : obs)
   (* a valid request with a payload of 64 Ki bytes or more: the values sent and
      the values echoed as digests; the specification alone is evaluated *)
 | CLargeOk (sent : list dig) (rq : rinfo) (o : lobs)
@@ -287,6 +294,18 @@ Definition judge (c : ccase) : N :=
         | MBMultipart ct => do _ <- extract_multipart ct; Ok tt
         end in
       verdict_malformed o (extract3 mp mq mb)
+  | CFloat double src intended rq o =>
+      let m := match src with
+               | FPath r => extract_path_float double r
+               | FQuery q => extract_query_float double [118] q
+               end in
+      let as_named (b : N) : named := [([118], FvOne (VInt (Z.of_N b)))] in
+      match intended with
+      | Some b =>
+          verdict_valid (spec_delivered o rq [as_named b] None None)
+            (match m with Ok b' => list_eqb named_eqb (echoed o) [as_named b'] | Err _ => false end)
+      | None => verdict_malformed o m
+      end
   | CLargeOk sent rq o =>
       match o with
       | LOk entered usable got ri =>
@@ -302,7 +321,7 @@ Definition is_valid_stream (c : ccase) : bool :=
   match c with
   | CPath _ _ (Some _) _ _ | CQuery _ _ (Some _) _ _ | CForm _ _ _ _ (Some _) _ _
   | CJson _ _ _ _ (Some _) _ _ | CRaw _ _ _ _ _ _ | CMultipart _ _ _ (Some _) _ _
-  | CAll _ _ _ _ _ _ _ _ (Some _) _ _ | CLargeOk _ _ _ => true
+  | CAll _ _ _ _ _ _ _ _ (Some _) _ _ | CLargeOk _ _ _ | CFloat _ _ (Some _) _ _ => true
   | _ => false
   end.
 
